@@ -255,6 +255,17 @@ fn defplace_case(rng: &mut Rng, i: u64) -> Case {
             entry.push_str(&format!("\nm_cat_1 CAT({name},1) ;\n"));
         }
     }
+    // a caller may pass a name that compile() also defines itself: like a #define line, the
+    // caller's value counts
+    if form == Form::Compile && d.chance(1, 2) {
+        let name = ["RSSL_TARGET_MSL", "RSSL_TARGET_HLSL", "__HLSL_VERSION"][d.below(3) as usize];
+        g.defines.push((name.to_string(), d.range(3, 9).to_string()));
+        let entry = g.fs.files.get_mut(&g.entry).unwrap();
+        if !entry.ends_with('\n') {
+            entry.push('\n');
+        }
+        entry.push_str(&format!("static const int m_builtin_{} = {name} + 0 ;\n", d.range(1, 99)));
+    }
     d.shuffle(&mut g.defines);
 
     let mut t = match form {
